@@ -2,7 +2,7 @@
     TemplatedFile of a fix run, or a raw patch list) and compare with the implementation's patch
     list and fixed text. No logic of the kernel lives here. *)
 From Coq Require Export String Ascii.
-From Sq Require Import Base.Corr Patch.Model.
+From Sq Require Import Base.Corr Patch.Model Patch.SpanModel.
 
 (* compact text literals in generated cases: (S "...") *)
 Definition S (s : string) : str := List.map N_of_ascii (list_ascii_of_string s).
@@ -35,3 +35,13 @@ Definition model_patches (a : patches_args) : str :=
   let '(s, so, ps) := a in fix_string_so s so (map to_p ps).
 Definition check_patches (a : patches_args) (e : str) : bool := str_eqb (model_patches a) e.
 Definition case_t_patches : Type := (N * patches_args * str)%type.
+
+(* group span: (raw slices, queried source ranges) -> per range the returned slices as (source_idx, length),
+   None = the implementation panicked *)
+Definition span_args : Type := (list rsl * list (N * N))%type.
+Definition span_out : Type := list (option (list (N * N))).
+Definition model_span (a : span_args) : span_out :=
+  map (fun q => option_map (map (fun x => (r_idx x, r_len x))) (spanning (fst a) (fst q) (snd q))) (snd a).
+Definition check_span (a : span_args) (e : span_out) : bool :=
+  list_eqb (opt_eqb (list_eqb (pair_eqb N.eqb N.eqb))) (model_span a) e.
+Definition case_t_span : Type := (N * span_args * span_out)%type.
